@@ -1,7 +1,7 @@
 (* C09: load_application.  One attempt (flood fill of the still-unloaded map, verification by count or
    by per-core state reads), the loop invariant, and the theorems about the outcome. *)
 From Coq Require Import ZArith List Bool Lia Sorted Permutation.
-Require Import Rig.Generated.GenRegions Rig.Generated.GenLoad Rig.Model.Base Rig.Model.Regions Rig.Spec.Regions.
+Require Import Rig.Generated.GenRegions Rig.Generated.GenLoad Rig.Generated.GenLoadShape Rig.Model.Base Rig.Model.Regions Rig.Spec.Regions.
 Require Import Rig.Model.Load Rig.Spec.Load.
 Require Import Rig.Proofs.Regions Rig.Proofs.LoadBits Rig.Proofs.LoadMachine Rig.Proofs.LoadCtrl Rig.Proofs.LoadFill Rig.Proofs.LoadCount.
 Import ListNotations.
@@ -58,21 +58,21 @@ Qed.
 (* ---------------------------------------------------------------- one attempt: the flood fills *)
 (* after flood-filling the map [unl]: every named core is either as before (its chip missed the fill, or
    there is no such core) or holds its binary, waiting; every other core is as before *)
-Definition fill_post (bins : list (list Z)) (aid : Z) (unl : appmap) (m0 m1 : machine) : Prop :=
+Definition fill_post (bins : list (list Z)) (aid st : Z) (unl : appmap) (m0 m1 : machine) : Prop :=
   (forall b c, In (b, c) (named unl) ->
      core_at m1 c = core_at m0 c \/
      (core_at m0 c <> None /\ exists data, nth_error bins (Z.to_nat b) = Some data
-                                           /\ core_at m1 c = Some (mkCore STATE_WAIT aid data)))
+                                           /\ core_at m1 c = Some (mkCore st aid data)))
   /\ (forall c, ~ In c (map snd (named unl)) -> core_at m1 c = core_at m0 c).
 
-Lemma flood_fill_aplx_post : forall bins aid unl c w c' w',
+Lemma flood_fill_aplx_post : forall bins aid wait unl c w c' w',
   ctrl_wf c (w_m w) -> machine_wf (w_m w) -> bins_ok (m_buffer (w_m w)) bins -> 0 <= aid < 256 ->
   NoDup (map snd (named unl)) ->
-  flood_fill_aplx bins c w unl aid true = Ok (c', w') ->
-  fill_post bins aid unl (w_m w) (w_m w') /\ ctrl_wf c' (w_m w') /\ machine_wf (w_m w')
+  flood_fill_aplx bins c w unl aid wait = Ok (c', w') ->
+  fill_post bins aid (if wait then STATE_WAIT else STATE_RUN) unl (w_m w) (w_m w') /\ ctrl_wf c' (w_m w') /\ machine_wf (w_m w')
   /\ same_static (w_m w) (w_m w') /\ map fst (m_chips (w_m w')) = map fst (m_chips (w_m w)).
 Proof.
-  intros bins aid unl. induction unl as [|[b ts] r IH]; intros c w c' w' Hc Hm Hbins Haid Hnd H.
+  intros bins aid wait unl. induction unl as [|[b ts] r IH]; intros c w c' w' Hc Hm Hbins Haid Hnd H.
   - cbn [flood_fill_aplx] in H. inversion H; subst.
     split; [split; [intros b c0 []|reflexivity]|]. split; [exact Hc|]. split; [exact Hm|]. split; [repeat split|reflexivity].
   - cbn [flood_fill_aplx] in H.
@@ -80,17 +80,20 @@ Proof.
     apply bind_ok in H. destruct H as [[c1 w1] [Hf H]]. cbn [fst snd] in H.
     assert (Hbin : binary_ok (m_buffer (w_m w)) data).
     { unfold bins_ok in Hbins. rewrite Forall_forall in Hbins. apply Hbins. eapply nth_error_In. exact Eb. }
-    pose proof (fill_one_effect c w aid (ff_flags true) data ts c1 w1 Hc Hm Hbin Haid
-                                ltac:(rewrite ff_flags_true; lia) Hf) as (E1 & E2 & E3 & E4 & E5 & E6).
-    rewrite ff_flags_true in E4. change (loaded_core 1 aid data) with (mkCore STATE_WAIT aid data) in E4.
+    assert (Hfl : 0 <= ff_flags wait < 64) by (destruct wait; vm_compute; split; congruence).
+    pose proof (fill_one_effect c w aid (ff_flags wait) data ts c1 w1 Hc Hm Hbin Haid Hfl Hf)
+      as (E1 & E2 & E3 & E4 & E5 & E6).
+    assert (Hlc : loaded_core (ff_flags wait) aid data = mkCore (if wait then STATE_WAIT else STATE_RUN) aid data)
+      by (destruct wait; reflexivity).
+    rewrite Hlc in E4.
     rewrite named_cons, map_app, map_snd_pair in Hnd.
     destruct (NoDup_app_inv _ _ _ Hnd) as (_ & Hndr & Hdisj).
     assert (Hm1 : machine_wf (w_m w1)).
-    { apply (machine_wf_kept (w_m w) (w_m w1) 1 aid Hm E2 E3 Haid).
+    { apply (machine_wf_kept (w_m w) (w_m w1) (ff_flags wait) aid Hm E2 E3 Haid).
       intros [[x y] p] s' Hs. rewrite E4 in Hs. destruct (core_at (w_m w) (x, y, p)) as [old|]; [|discriminate].
       cbn [option_map] in Hs. inversion Hs.
       destruct (negb (chip_mem (x, y) (hd [] (m_sched (w_m w)))) && requested (cores_of_targets ts) x y p);
-        [right; exists data; reflexivity|left; reflexivity]. }
+        [right; exists data; symmetry; exact Hlc|left; reflexivity]. }
     assert (Hc1 : ctrl_wf c1 (w_m w1)).
     { destruct E2 as (Sa & _). split; [rewrite E5; pose proof (next_nn_id_range (c_nn c) (proj1 Hc)); lia|].
       right. rewrite E6, Sa. reflexivity. }
@@ -188,7 +191,7 @@ Proof.
     rewrite <- Hm1 in Hc1. apply IH in Hrec; try assumption; try (rewrite Hm1; assumption).
     + destruct Hrec as (Hm2 & Hc2 & Hl). inversion H; subst c' w' un. clear H. rewrite Hm1 in *.
       split; [exact Hm2|]. split; [exact Hc2|]. cbn [filter]. unfold still at 1. rewrite <- Hs.
-      change AppState_wait with STATE_WAIT. destruct (s =? STATE_WAIT); cbn [negb]; rewrite Hl; reflexivity.
+      change load_loaded_state with STATE_WAIT. destruct (s =? STATE_WAIT); cbn [negb]; rewrite Hl; reflexivity.
     + intros q Hq. apply Hsp. right. exact Hq.
 Qed.
 
@@ -380,7 +383,7 @@ Qed.
 (* ---------------------------------------------------------------- the state after the flood fills of one attempt *)
 Lemma after_fills : forall bins aid am m0 m unl m1,
   NoDup (map snd (named am)) -> Inv bins aid am m0 m unl ->
-  fill_post bins aid unl m m1 ->
+  fill_post bins aid STATE_WAIT unl m m1 ->
   (forall b c, In (b, c) (named am) ->
      (In (b, c) (named unl) /\ (~ in_wait m1 c \/ holds bins m1 aid STATE_WAIT b c))
      \/ (~ In (b, c) (named unl) /\ holds bins m1 aid STATE_WAIT b c))
@@ -405,7 +408,7 @@ Qed.
 (* ---------------------------------------------------------------- the loop *)
 Lemma Inv_after_check : forall bins aid am m0 m unl m1 unl1,
   NoDup (map snd (named am)) -> Inv bins aid am m0 m unl ->
-  fill_post bins aid unl m m1 -> machine_wf m1 -> same_static m m1 ->
+  fill_post bins aid STATE_WAIT unl m m1 -> machine_wf m1 -> same_static m m1 ->
   named unl1 = filter (fun bc => still m1 (snd bc)) (named unl) ->
   Inv bins aid am m0 m1 unl1.
 Proof.
@@ -426,7 +429,7 @@ Qed.
 
 Lemma Inv_all_loaded : forall bins aid am m0 m unl m1,
   NoDup (map snd (named am)) -> Inv bins aid am m0 m unl ->
-  fill_post bins aid unl m m1 -> machine_wf m1 -> same_static m m1 ->
+  fill_post bins aid STATE_WAIT unl m m1 -> machine_wf m1 -> same_static m m1 ->
   (forall b c, In (b, c) (named am) -> holds bins m1 aid STATE_WAIT b c) ->
   Inv bins aid am m0 m1 [].
 Proof.
@@ -465,6 +468,7 @@ Proof.
     apply bind_ok in H. destruct H as [[c1 w1] [Hff H]]. cbn [fst snd] in H.
     apply flood_fill_aplx_post in Hff; try assumption; try exact (inv_nodup _ _ _ _ _ _ I); [|rewrite Sa; exact Hbins].
     destruct Hff as (Hpost & Hc1 & Hwf1 & Hst1 & Hk1).
+    change (if load_fill_wait then STATE_WAIT else STATE_RUN) with STATE_WAIT in Hpost.
     assert (Hatt : att_ok bins (a_app a) am (unl, w_m w)) by (eapply Inv_att_ok; exact I).
     assert (Hspu : forall b x y p, In (b, (x, y, p)) (named unl) -> in_space (x, y, p) /\ ~ (x = 255 /\ y = 255)).
     { intros b x y p Hin. apply (Hsp b). apply (inv_incl _ _ _ _ _ _ I). exact Hin. }
@@ -574,4 +578,66 @@ Proof.
     split; [exact (inv_incl _ _ _ _ _ _ I)|]. split.
     + intros b c0 Hin. exact (proj2 (Inv_att_ok _ _ _ _ _ _ I) b c0 Hin).
     + intros c0 Hc0. exact (inv_other _ _ _ _ _ _ I c0 Hc0).
+Qed.
+
+(* ---------------------------------------------------------------- the content of the error *)
+Lemma error_cores_named : forall unl, error_cores unl = map snd (named unl).
+Proof.
+  induction unl as [|[b ts] r IH]; [reflexivity|]. unfold error_cores in *. cbn [flat_map snd].
+  rewrite named_cons, map_app, map_snd_pair, IH. reflexivity.
+Qed.
+
+(* SpiNNakerLoadingError: the cores its message lists are exactly the requested cores that do not hold their
+   binary, each listed once *)
+Theorem load_error_names_unloaded : forall bins c w am a c' w' unl atts,
+  machine_wf (w_m w) -> ctrl_wf c (w_m w) -> map_wf am -> bins_ok (m_buffer (w_m w)) bins ->
+  0 <= a_app a < 256 ->
+  no_requested_waiting (w_m w) am ->
+  (a_count a = true -> no_other_waiting (w_m w) am (a_app a)) ->
+  load_application bins c w am a = Ok (c', w', LoadingError unl, atts) ->
+  NoDup (error_cores unl)
+  /\ forall c0, In c0 (error_cores unl) <->
+                exists b, In (b, c0) (named am) /\ ~ holds bins (w_m w') (a_app a) STATE_WAIT b c0.
+Proof.
+  intros bins c w am a c' w' unl atts Hwf Hc Hmap Hbins Haid Hreq Hoth H.
+  unfold load_application in H. apply bind_ok in H. destruct H as [[[[c1 w1] unl1] atts0] [Hl H]].
+  assert (I0 : Inv bins (a_app a) am (w_m w) (w_m w) am).
+  { constructor.
+    - intros bc Hin. exact Hin.
+    - exact (proj1 Hmap).
+    - intros b c0 Hin. left. split; [exact Hin|apply (Hreq b c0 Hin)].
+    - reflexivity.
+    - exact Hwf.
+    - repeat split. }
+  apply load_loop_spec with (m0 := w_m w) in Hl; try assumption.
+  destruct Hl as (I & _ & _).
+  destruct unl1 as [|u0 unl1]; cbn [is_empty negb] in H.
+  - destruct (negb (a_wait a)); [apply bind_ok in H; destruct H as [w2 [_ H]]|]; inversion H.
+  - inversion H; subst c' w' unl atts. clear H. rewrite error_cores_named.
+    split; [exact (inv_nodup _ _ _ _ _ _ I)|]. intros c0. split.
+    + intros Hin. apply in_map_iff in Hin. destruct Hin as [[b c1'] [Heq Hin]]. cbn [snd] in Heq. subst c1'.
+      exists b. pose proof (inv_incl _ _ _ _ _ _ I _ Hin) as Hin'. split; [exact Hin'|].
+      apply (proj2 (Inv_att_ok _ _ _ _ _ _ I) b c0 Hin'). exact Hin.
+    + intros [b [Hin Hnh]]. apply in_map_iff. exists (b, c0). split; [reflexivity|].
+      apply (proj2 (Inv_att_ok _ _ _ _ _ _ I) b c0 Hin). exact Hnh.
+Qed.
+
+(* ---------------------------------------------------------------- bare flood_fill_aplx *)
+(* what flood_fill_aplx(map, app_id, wait) does to the machine: every named core is as before (its chip missed
+   the fill of its binary, or there is no such core) or holds its binary under the app id, waiting iff wait
+   was asked, else running; no other core changes *)
+Theorem flood_fill_aplx_effect : forall bins aid wait am c w c' w',
+  ctrl_wf c (w_m w) -> machine_wf (w_m w) -> bins_ok (m_buffer (w_m w)) bins -> 0 <= aid < 256 ->
+  NoDup (map snd (named am)) ->
+  flood_fill_aplx bins c w am aid wait = Ok (c', w') ->
+  (forall b c0, In (b, c0) (named am) ->
+     core_at (w_m w') c0 = core_at (w_m w) c0 \/
+     (core_at (w_m w) c0 <> None /\
+      holds bins (w_m w') aid (if wait then STATE_WAIT else STATE_RUN) b c0))
+  /\ (forall c0, ~ In c0 (map snd (named am)) -> core_at (w_m w') c0 = core_at (w_m w) c0).
+Proof.
+  intros bins aid wait am c w c' w' Hc Hm Hbins Haid Hnd H.
+  destruct (flood_fill_aplx_post bins aid wait am c w c' w' Hc Hm Hbins Haid Hnd H) as ((P1 & P2) & _).
+  split; [|exact P2]. intros b c0 Hin. destruct (P1 b c0 Hin) as [Hs|[Hne [data [Hb Hat]]]]; [left; exact Hs|].
+  right. split; [exact Hne|]. exists data. split; assumption.
 Qed.
